@@ -220,10 +220,6 @@ func verif_contract_Session_onlineTransition(h *Session, host *Host) {
 	vEnsures(spec_session_wf(h))
 }
 
-func verif_contract_echoNotify(id uint16) {
-	vModifiesMems("packet.icmpEntry/", "packet.icmpTable", "map[uint16]*")
-	echoNotify(id)
-}
 
 func spec_off_ok(off int, n int) bool { return off == 0 || (14 <= off && off <= n) }
 
@@ -429,7 +425,7 @@ func verif_lemma_parse_refines_spec(h *Session, p []byte) {
 	}
 }
 
-//verif:props C01 C02 C16
+//verif:props C01 C02 C08 C16
 func verif_contract_Session_Parse(h *Session, p []byte) (Frame, error) {
 	vRequires(spec_session_wf(h))
 	vStrictLen()
